@@ -17,7 +17,8 @@ import (
 // argv is one serialisable argument of an alphabet operation.
 //
 //	str    a string (S)                       path   a path string (S), classified in signatures
-//	int    an int (I)                         i64    an int64 (I)
+//	pstr   a string that is read as a path or as a pattern of paths (S): rendered like str,
+//	       but spelled for the OS type of the base like path//	int    an int (I)                         i64    an int64 (I)
 //	mode   an fs.FileMode in Unix layout (I)  flag   open flags (I)
 //	u8     a byte (I)                         data   a []byte to be written (S)
 //	buf    a []byte of length I to read into  time   fsx.FixedTime + I seconds
@@ -33,7 +34,7 @@ type argv struct {
 
 func (a argv) String() string {
 	switch a.K {
-	case "str", "path":
+	case "str", "path", "pstr":
 		return fmt.Sprintf("%q", a.S)
 	case "int", "i64", "u8":
 		return fmt.Sprint(a.I)
@@ -199,10 +200,12 @@ type domains struct {
 	finfo   []string // paths whose FileInfo is passed to SameFile / ToSysStat
 	flags   []int
 	subFS   bool // receiver is a file system obtained from Sub
+	vol2    bool // the base holds a second volume (Windows-typed MemFS): its root, a directory and a file are operands too
 }
 
 func p(s string) argv  { return argv{K: "path", S: s} }
 func st(s string) argv { return argv{K: "str", S: s} }
+func ps(s string) argv { return argv{K: "pstr", S: s} }
 func md(m int64) argv  { return argv{K: "mode", I: m} }
 func in(i int64) argv  { return argv{K: "int", I: i} }
 func i64(i int64) argv { return argv{K: "i64", I: i} }
@@ -261,6 +264,10 @@ func vfsArgs(name string, mt reflect.Type, d domains) (tuples [][]argv, ok bool)
 			dirs = []string{"/", "/e", "", "/nope"}
 		}
 
+		if d.vol2 {
+			dirs = append(dirs, vol2Dir)
+		}
+
 		return each(dirs, st("t*")), true
 	case "Glob":
 		pats := []string{"/d/*", "/*/*", "*", "/nope/*", "[", ""}
@@ -268,18 +275,28 @@ func vfsArgs(name string, mt reflect.Type, d domains) (tuples [][]argv, ok bool)
 			pats = []string{"/*", "/*/*", "*", "/nope/*", "[", ""}
 		}
 
+		if d.vol2 {
+			pats = append(pats, vol2Root+"*")
+		}
+
 		var t [][]argv
 		for _, x := range pats {
-			t = append(t, []argv{st(x)})
+			t = append(t, []argv{ps(x)})
 		}
 
 		return t, true
 	case "Match":
-		return [][]argv{{st("*"), st("f")}, {st("["), st("f")}, {st("a/*"), st("a/b")}}, true
+		return [][]argv{{ps("*"), ps("f")}, {ps("["), ps("f")}, {ps("a/*"), ps("a/b")}}, true
 	case "Rel":
-		return [][]argv{{st("/d"), st("/d/e/g")}, {st("/d"), st("e")}, {st("/d/e"), st("/d")}}, true
+		t := [][]argv{{ps("/d"), ps("/d/e/g")}, {ps("/d"), ps("e")}, {ps("/d/e"), ps("/d")}}
+		if d.vol2 {
+			// no relative path leads from one volume to another
+			t = append(t, []argv{ps("/d"), ps(vol2Dir)})
+		}
+
+		return t, true
 	case "Join":
-		return [][]argv{{st("/d"), st("f")}, {st(""), st("")}, {st("/d/"), st("../x")}}, true
+		return [][]argv{{ps("/d"), ps("f")}, {ps(""), ps("")}, {ps("/d/"), ps("../x")}}, true
 	case "IsPathSeparator":
 		return [][]argv{{{K: "u8", I: '/'}}, {{K: "u8", I: 'a'}}, {{K: "u8", I: '\\'}}}, true
 	case "Link", "Rename", "Symlink":
@@ -308,6 +325,10 @@ func vfsArgs(name string, mt reflect.Type, d domains) (tuples [][]argv, ok bool)
 		roots := []string{"/d", "/", "/nope", "/d/f", ""}
 		if d.subFS {
 			roots = []string{"/", "/e", "/nope", "/f", ""}
+		}
+
+		if d.vol2 {
+			roots = append(roots, vol2Root)
 		}
 
 		return each(roots, argv{K: "walkfn"}), true
@@ -532,14 +553,81 @@ func quickFlags() []int {
 	}
 }
 
+// Windows-typed bases. The alphabet is written once, in slash form, and
+// spelled for the OS type of the base: "/d/f" is `C:\d\f` there, "d/f" is
+// `d\f`. The operands that exist on a Windows-typed base only are written as
+// they are (spell leaves them alone).
+//
+// Lesson: a file system that emulates Windows keeps one root per volume in a
+// table that lives outside the tree; a view of the file system (Sub) is a
+// copy of the handle, not of that table. What a wrapper must leave untouched
+// is therefore more than the tree below one root: the base holds a second
+// volume, the snapshot covers every volume, and the operands name the root, a
+// directory and a file of the other volume and a rooted path without volume
+// (resolved against the volume of the current directory).
+const (
+	winVolume = "C:"
+	vol2      = "D:"
+	vol2Root  = vol2 + `\`
+	vol2Dir   = vol2 + `\v`
+	vol2File  = vol2 + `\v\w`
+	rootedDir = `\d` // volume of the current directory
+)
+
+// sysKind splits the name of a system: MemFS | OrefaFS, optionally followed by @Windows.
+func sysKind(name string) (kind string, win bool) {
+	kind, ost, _ := strings.Cut(name, "@")
+
+	return kind, ost == "Windows"
+}
+
+// hasVol2: the Windows-typed MemFS manages volumes (avfs.VolumeManager), the OrefaFS has the default volume only.
+func hasVol2(name string) bool {
+	kind, win := sysKind(name)
+
+	return win && kind == "MemFS"
+}
+
+// spell turns a path (or pattern) of the alphabet into the spelling of the OS type of the base.
+func spell(win bool, pth string) string {
+	if !win {
+		return pth
+	}
+
+	if strings.HasPrefix(pth, "/") {
+		pth = winVolume + pth
+	}
+
+	return strings.ReplaceAll(pth, "/", `\`)
+}
+
+// qualified: the path does not depend on the current directory (nor on its volume).
+func qualified(win bool, pth string) bool {
+	if !win {
+		return strings.HasPrefix(pth, "/")
+	}
+
+	return len(pth) >= 3 && pth[1] == ':' && (pth[2] == '\\' || pth[2] == '/')
+}
+
 // buildOps builds the static alphabet of one system. The second result lists
 // methods for which no argument tuple could be built (harness error if any).
 func buildOps(base, tier string) (ops []opDesc, bad []string, info map[string]any) {
 	th := tier == "thorough"
+	kind, win := sysKind(base)
+	v2 := hasVol2(base)
 
 	roPaths := []string{"/d", "/d/f", "/d/h", "/d/e", "/d/e/g", "/d/new", "/nope", "/", "d/f", ""}
-	if base == "MemFS" {
+	if kind == "MemFS" {
 		roPaths = append(roPaths, "/d/s", "/d/sd")
+	}
+
+	if win {
+		roPaths = append(roPaths, rootedDir)
+	}
+
+	if v2 {
+		roPaths = append(roPaths, vol2Root, vol2Dir, vol2File)
 	}
 
 	// a file system obtained from Sub sees the subtree: the same strings plus
@@ -552,7 +640,7 @@ func buildOps(base, tier string) (ops []opDesc, bad []string, info map[string]an
 	}
 
 	dom := func(paths []string, sub bool) domains {
-		d := domains{tier: tier, paths: paths, flags: flags, subFS: sub}
+		d := domains{tier: tier, paths: paths, flags: flags, subFS: sub, vol2: v2}
 		d.lexical = []string{"/d/f", "d/f", "", "/d/../x/"}
 		d.old = []string{"/d/f", "/d/e", "/nope"}
 		d.new = []string{"/d/new", "/d/h", "/d/f", "/x"}
@@ -562,6 +650,16 @@ func buildOps(base, tier string) (ops []opDesc, bad []string, info map[string]an
 			d.old = append(d.old, "/f", "/e")
 			d.new = append(d.new, "/new", "/h")
 			d.finfo = []string{"/f", "/h", "/e/g"}
+		}
+
+		if win {
+			d.lexical = append(d.lexical, rootedDir, winVolume+"d") // C:d is relative to the current directory of volume C:
+		}
+
+		if v2 {
+			d.lexical = append(d.lexical, vol2File)
+			d.new = append(d.new, vol2Dir+`\new`) // across volumes
+			d.finfo = append(d.finfo, vol2File)
 		}
 
 		if th {
@@ -645,7 +743,36 @@ func buildOps(base, tier string) (ops []opDesc, bad []string, info map[string]an
 		}
 	}
 
+	// spelled for the OS type of the base
+	sp := func(l []string) []string {
+		out := make([]string, len(l))
+		for i, x := range l {
+			out[i] = spell(win, x)
+		}
+
+		return out
+	}
+
+	for i := range ops {
+		for j, a := range ops[i].Args {
+			switch a.K {
+			case "path", "pstr", "finfo":
+				ops[i].Args[j].S = spell(win, a.S)
+			}
+		}
+	}
+
+	roPaths, subPaths = sp(roPaths), sp(subPaths)
+
+	osName := "Linux"
+	if win {
+		osName = "Windows"
+	}
+
 	info = map[string]any{
+		"base_kind":            kind,
+		"base_os_type":         osName,
+		"second_volume":        v2,
 		"vfs_methods":          methodNames(tVFS),
 		"file_methods":         methodNames(tFile),
 		"unclassified_methods": append(unknownVFS, unknownFile...),
